@@ -266,14 +266,19 @@ func TestVerif_C11_e2e(t *testing.T) {
 		ans := outcome + " " + verifh.HexList(gotHosts) + " " + strings.Join(gotHdr, ";")
 
 		// ---- independent oracle
-		want := 1
-		for k := 1; k < len(auths); k++ {
-			if c11Decide(ps, auths[k], auths[:k], c11OracleHostOf, c11OracleDomainOf) != 0 {
-				break
+		predict := func(hostOf, domainOf func(string) string) (int, int) {
+			cnt := 1
+			for k := 1; k < len(auths); k++ {
+				if d := c11Decide(ps, auths[k], auths[:k], hostOf, domainOf); d != 0 {
+					return cnt, d
+				}
+				cnt++
 			}
-			want++
+			return cnt, 0
 		}
-		ok := orderOK && len(recs) == want && len(dials) == len(recs)
+		want, wantStop := predict(c11OracleHostOf, c11OracleDomainOf)
+		gotStop := map[string]int{"final": 0, "refused": 1, "last": 2}[strings.SplitN(outcome, ":", 2)[0]]
+		ok := orderOK && len(recs) == want && gotStop == wantStop && len(dials) == len(recs)
 		detail := ""
 		if !ok {
 			detail = fmt.Sprintf("requests received %d, oracle allows %d, dials %d", len(recs), want, len(dials))
@@ -337,14 +342,8 @@ func TestVerif_C11_e2e(t *testing.T) {
 			legacyAffected = legacyAffected || c11LegacyAffected(h)
 		}
 		if legacyAffected {
-			wantLegacy := 1
-			for k := 1; k < len(auths); k++ {
-				if c11Decide(ps, auths[k], auths[:k], c11LegacyHostname, c11LegacyDomain) != 0 {
-					break
-				}
-				wantLegacy++
-			}
-			if wantLegacy != want && len(recs) == wantLegacy {
+			lc, ls := predict(c11LegacyHostname, c11LegacyDomain)
+			if (lc != want || ls != wantStop) && len(recs) == lc && gotStop == ls {
 				class = c11LegacyClass
 				s.Count("legacy-behaviour")
 			}
